@@ -23,6 +23,15 @@ Enumerated (one *case* per item; families of cases are the top-level scenarios):
   bind     ssl on/off x {bind, insecure_bind, quic_bind} x bind-string shapes {host:0, host:port, bare host,
            name:0, [::1]:0, [::1]:port, bare [::1], unix:path (fresh / stale socket file), fd://n (matching /
            mismatching type)} alone and in ordered pairs
+  cfgname  the three documented forms of the -c / --config argument {file:<path>, python:<module> (also module.attribute),
+           bare TOML path} x a name alphabet that exercises the prefix handling: names starting with every character of
+           "file:" and "python:" (f i l e : p y t h o n) and two control characters, one-character names, names equal to /
+           containing the prefix words (file.py, python.py, file:file.py, python:python.py, my-file:x.py, module python.python),
+           names in sub-directories / packages (also directories called file, python, "file:") x placement {relative to the
+           working directory, ./name, ../name, absolute path from another directory; modules: scratch dir first on sys.path,
+           last on sys.path, working directory with "" on sys.path} x {target present, target missing}; every case runs in a
+           private scratch tree (tempfile, removed afterwards) that also holds decoy files / modules with other values at
+           every proper suffix of the argument word and at the unstripped word
   root     root_path alphabet x loaders
   hdr      epoch lattice (every day of the chosen years at 00:00:00 and 23:59:59, every minute of one day,
            fractional seconds) x {include_date_header, include_server_header} x alt_svc_headers x protocol
@@ -35,6 +44,11 @@ Oracle clauses (expected values come from the documented tables / reference mode
                        or a setting nobody asked for changed (key <setting>:unasked-change)
   cli-rejected         a documented invocation exits
   file-value-survives  a value from the config file was lost although no given flag is documented to set it
+  config-arg-load      -c <form><name> with the named file / module present: run() did not get defaults + the values written
+                       into exactly that file / module (key <form>:loaded-sibling - the values of a decoy; <form>:raised:<Exc>;
+                       <form>:rejected; <setting>:<form> - some other difference)
+  config-arg-missing   -c <form><name> with the named file / module absent ended without an error: run() got a Config
+                       (key <form>:loaded; the detail names the sibling whose values it holds)
   cli-table-coverage   parser options and the documented flag table differ (the enumeration would be incomplete)
   bind-socket          socket family / type / address / count differs from the reference parse of the bind string
   bind-failed          a documented bind shape raised
@@ -47,6 +61,7 @@ from __future__ import annotations
 import contextlib
 import copy
 import importlib
+import importlib.util
 import io
 import os
 import socket
@@ -63,10 +78,11 @@ from mc import x_c19c20_ref as ref
 ID = "C19"
 LEVEL = "exploration"
 TECHNIQUE = ("bounded exhaustive enumeration of the finite configuration space (keys x values x loaders, CLI flags "
-             "alone and in ordered pairs, bind-string shapes, root paths, clock lattice x header switches) executed on "
+             "alone and in ordered pairs, -c argument forms x prefix-exercising file / module names x placement x present / missing "
+             "in scratch trees with decoy siblings, bind-string shapes, root paths, clock lattice x header switches) executed on "
              "the real Config / __main__.main / create_sockets / response_headers; oracle = documented tables and "
              "independent reference functions")
-RULE = ("one evaluation = one case (one key/value/loader, one argv, one bind list, one clock instant); distinct by digest "
+RULE = ("one evaluation = one case (one key/value/loader, one argv, one -c word in one scratch tree, one bind list, one clock instant); distinct by digest "
         "of the observed Config snapshot / socket descriptions / header list; non-trivial = the observed outcome differs "
         "from the all-defaults outcome (a setting changed, a socket exists, a header was produced)")
 ASSUMPTIONS = [
@@ -75,14 +91,21 @@ ASSUMPTIONS = [
     "values that a format cannot express are not loaded through it (None / classes / enums in TOML, non-integers on the CLI)",
     "binds use loopback addresses, ephemeral or probed-free ports, temp-dir unix sockets and dup()ed descriptors only; "
     "[::] / 0.0.0.0 are not bound; the aioquic alt-svc branch of response_headers is not reachable (aioquic not installed)",
+    "-c names: a word starting with file: / python: is never offered as a bare TOML path (it is by definition the other form); "
+    "python files carry the .py extension the documentation shows; module names that an installed or already imported module "
+    "owns are skipped (none on this installation); for a missing target any exception or non-zero exit is accepted as the "
+    "error (the documentation names none) - only a Config reaching run() is a violation",
     "two flags documented for one setting, or one non-repeatable flag given twice: either given value is accepted",
     "a bind that fails with EADDRINUSE is retried with fresh ports; if a control experiment with plain sockets shows that "
     "port 8000 (the documented default of bare hosts) is occupied on this machine the case is skipped, not judged",
 ]
 BOUNDS_DOC = {
     "quick": "all 54 keys x 2 values x 12 loaders + ordered key pairs x 2 loaders; all 44 spellings alone x 3 value sets; 36x36 ordered canonical pairs; "
-             "toml file key x flag; bind shapes alone + pairs; 2 years + 1 day of minutes of clock lattice",
+             "toml file key x flag; -c forms: 69 file + 74 toml names (68 for the bare relative word) x 4 placements, 60 module names x {module, module.attribute} x 3 sys.path "
+             "arrangements, each with the target present and missing (1852 cases, decoys at every suffix of the word); bind shapes alone + pairs; 2 years + 1 day of minutes of clock lattice",
     "thorough": "as quick plus key pairs x 7 loaders, all 36^3 canonical triples, all 44x44 ordered spelling pairs x 3 value sets x 2 argv styles, 3 config-file formats, "
+                "-c names additionally with every ordered pair of prefix characters as the first two characters (flat and as directory / "
+                "package name) and every ordered pair of the prefix words as directory/file resp. package.module (12340 cases), "
                 "clock lattice over every day 1970-2100",
 }
 BUDGET = {"quick": 90, "thorough": 1100}
@@ -509,9 +532,245 @@ def do_cliopts(case: tuple) -> ExecResult:
 
 
 # ---------------------------------------------------------------------------------------------
+# part: cfgname  (the -c / --config argument forms over a name alphabet that exercises the prefix handling)
+#
+# `-c file:<path>` is documented as Config.from_pyfile(<path>), `-c python:<module>` as Config.from_object(<module>), any
+# other word as a TOML path.  The argument word is *built* here as prefix + name, so the expected target is known by
+# construction (no parsing of the word by the harness).  Every case gets a private scratch tree holding the target (or not:
+# present=0) and *decoys* with other values at every name a mis-handled prefix could resolve to instead: every proper suffix of
+# the argument word (too much removed), the whole word and the suffixes longer than the name (too little removed), the
+# same relative name in another directory (absolute paths).
+
+PREFIX_CHARS = ["f", "i", "l", "e", ":", "p", "y", "t", "h", "o", "n"]  # every character of "file:" and "python:"
+CONTROL_CHARS = ["c", "_"]
+CFG_WORDS = ["file", "python", "live", "life", "typhon", "hypercorn", "etc", "lib", "files", "prod", "net"]
+CFG_TARGET = {"backlog": 4242, "keep_alive_timeout": 17, "root_path": "/cfg-target/", "server_names": ["target.example"]}
+CFG_FORMS = ["file", "toml", "python", "python-attr"]
+CFG_PLACEMENTS = {"file": ["rel", "dot", "up", "abs"], "toml": ["rel", "dot", "up", "abs"],
+                  "python": ["path0", "pathend", "cwd"], "python-attr": ["path0", "pathend", "cwd"]}
+
+
+def _decoy_settings(i: int) -> Dict[str, Any]:
+    return {"backlog": 6000 + i, "keep_alive_timeout": 99, "root_path": f"/decoy-{i}", "server_names": [f"decoy-{i}.example"]}
+
+
+def cfg_names(form: str, placement: str, tier: str) -> List[str]:
+    first = PREFIX_CHARS + CONTROL_CHARS
+    if form in ("file", "toml"):
+        ext = ".py" if form == "file" else ".toml"
+        names = [c + "conf" + ext for c in first] + [c + ext for c in first] + [w + ext for w in CFG_WORDS]
+        names += [n + ext for n in ("file:file", "python:python", "file:python", "python:file", "my-file:x", "a.python:b")]
+        names += [c + "dir/conf" + ext for c in first]
+        names += [n + ext for n in ("etc/hypercorn", "lib/conf", "files/conf", "file/file", "python/python", "sub/file", "sub/python",
+                                    "sub/file:file", "sub/python:mod", "a/b/live", "etc/file/e", "file:/file", "python:/conf")]
+        if form == "toml":
+            names += ["file", "python", "hypercorn", "etc/file", "sub/python"]  # TOML files need no extension
+        if tier != "quick":
+            names += [a + b + "x" + ext for a in PREFIX_CHARS for b in PREFIX_CHARS]
+            names += [a + b + "/conf" + ext for a in PREFIX_CHARS for b in PREFIX_CHARS]
+            names += [w + "/" + v + ext for w in CFG_WORDS for v in CFG_WORDS]
+        if form == "toml" and placement == "rel":
+            # a bare word that starts with "file:" / "python:" is by definition not a TOML path
+            names = [n for n in names if not n.startswith(("file:", "python:"))]
+        return list(dict.fromkeys(names))
+    first = [c for c in first if c != ":"]
+    names = [c + "conf" for c in first] + list(first) + [w for w in CFG_WORDS if w != "hypercorn"]
+    names += ["hypercorn_conf", "prod_settings", "python_file", "file_python"]
+    names += [c + "pkg.conf" for c in first]
+    names += ["netconf.values", "pkg.python", "pkg.file", "python.python", "file.file", "python.file", "file.python", "pkg.sub.nconf",
+              "hypercorn_cfg.prod", "a.b.live"]
+    if tier != "quick":
+        names += [a + b + "x" for a in first for b in first]
+        names += [a + b + ".conf" for a in first for b in first]
+        names += [w + "." + v for w in CFG_WORDS for v in CFG_WORDS if w != "hypercorn"]
+    return list(dict.fromkeys(names))
+
+
+def _suffixes(word: str) -> List[str]:
+    return [word[i:] for i in range(len(word))]
+
+
+def _put(path: str, text: str) -> bool:
+    try:
+        os.makedirs(os.path.dirname(path), exist_ok=True)
+        if os.path.lexists(path):
+            return False
+        with open(path, "w") as f:
+            f.write(text)
+        return True
+    except OSError:  # a decoy whose name needs a directory where another decoy is a file (or the reverse): leave it out
+        return False
+
+
+def _attr_module(holder: Dict[str, Any], module_level: Dict[str, Any]) -> str:
+    src = ref.python_document(module_level) + "\n\nclass _Holder:\n    pass\n\n\nsettings = _Holder()\n"
+    for k, v in holder.items():
+        src += f"settings.{k} = {ref.python_value(v)[1]}\n"
+    return src
+
+
+def _lay_out_files(form: str, placement: str, name: str, present: int, scratch: str) -> Tuple[str, str, Dict[int, str]]:
+    """-> (cwd, argument word, decoy index -> path relative to the scratch dir)"""
+    root, other = os.path.join(scratch, "root"), os.path.join(scratch, "other")
+    work = os.path.join(root, "w")
+    for d in (work, other):
+        os.makedirs(d)
+    cwd, word = {"rel": (root, name), "dot": (root, "./" + name), "up": (work, "../" + name),
+                 "abs": (other, os.path.join(root, name))}[placement]
+    arg = ("file:" if form == "file" else "") + word
+    target = os.path.normpath(os.path.join(cwd, word))
+    doc = ref.python_document if form == "file" else ref.toml_document
+    if present:
+        assert _put(target, doc(CFG_TARGET)), target
+    if placement == "abs":
+        cands = [os.path.join(root, s) for s in _suffixes(name)[1:]] + [os.path.join(other, s) for s in _suffixes(name)]
+        cands = [c for c in cands if not c.endswith("/")]
+    else:
+        cands = [os.path.join(cwd, s) for s in _suffixes(arg) if s != word and not s.startswith("/") and not s.endswith("/")]
+    decoys: Dict[int, str] = {}
+    seen = {target}
+    for c in cands:
+        p = os.path.normpath(c)
+        if p in seen or not p.startswith(scratch + os.sep) or os.path.basename(p) in ("", ".", ".."):
+            continue
+        seen.add(p)
+        i = len(decoys)
+        if _put(p, doc(_decoy_settings(i))):
+            decoys[i] = os.path.relpath(p, scratch)
+    return cwd, arg, decoys
+
+
+def _module_path(root: str, dotted: str) -> str:
+    parts = dotted.split(".")
+    d = root
+    for pkg in parts[:-1]:
+        d = os.path.join(d, pkg)
+        os.makedirs(d, exist_ok=True)
+        _put(os.path.join(d, "__init__.py"), "")
+    return os.path.join(d, parts[-1] + ".py")
+
+
+_SPEC_CACHE: Dict[str, bool] = {}
+
+
+def _importable_elsewhere(top: str) -> bool:
+    """Is `top` an installed / already imported top-level module (asked while the scratch tree is not on sys.path)?"""
+    if top in sys.modules:
+        return True
+    if top not in _SPEC_CACHE:
+        try:
+            _SPEC_CACHE[top] = importlib.util.find_spec(top) is not None
+        except Exception:
+            _SPEC_CACHE[top] = True
+    return _SPEC_CACHE[top]
+
+
+def _lay_out_modules(form: str, name: str, present: int, scratch: str) -> Tuple[Optional[str], Dict[int, str]]:
+    """-> (argument word or None if the name is taken by an installed module, decoys); call before sys.path is changed"""
+    root = os.path.join(scratch, "root")
+    os.makedirs(root)
+    top = name.split(".")[0]
+    if _importable_elsewhere(top):
+        return None, {}
+    dotted = name + (".settings" if form == "python-attr" else "")
+    if present:
+        path = _module_path(root, name)
+        if form == "python":
+            assert _put(path, ref.python_document(CFG_TARGET)), path
+        else:  # the named attribute holds the settings; the module itself holds other values
+            assert _put(path, _attr_module(CFG_TARGET, _decoy_settings(900))), path
+    decoys: Dict[int, str] = {900: name + " (module level)"} if form == "python-attr" and present else {}
+    for s in _suffixes(dotted)[1:]:
+        parts = s.split(".")
+        if not all(p.isidentifier() for p in parts) or parts[0] == top or _importable_elsewhere(parts[0]):
+            continue  # not a module name / would shadow the target's own top-level name / an installed module
+        i = len(decoys)
+        if _put(_module_path(root, s), ref.python_document(_decoy_settings(i))):
+            decoys[i] = s
+    return "python:" + dotted, decoys
+
+
+def _forget_modules(scratch: str) -> None:
+    for mod_name, mod in list(sys.modules.items()):
+        where = getattr(mod, "__file__", None) or ""
+        paths = list(getattr(mod, "__path__", None) or [])
+        if any(str(p).startswith(scratch + os.sep) for p in [where] + paths):
+            del sys.modules[mod_name]
+    for p in list(sys.path_importer_cache):
+        if p.startswith(scratch):
+            del sys.path_importer_cache[p]
+    importlib.invalidate_caches()
+
+
+def do_cfgname(case: tuple) -> ExecResult:
+    # ("cfgname", form, placement, name, present)
+    _, form, placement, name, present = case
+    old_cwd, old_path = os.getcwd(), list(sys.path)
+    cfg = err = None
+    with tempfile.TemporaryDirectory(prefix="c19n_") as tmp:
+        scratch = os.path.realpath(tmp)
+        try:
+            if form in ("file", "toml"):
+                cwd, arg, decoys = _lay_out_files(form, placement, name, present, scratch)
+                os.chdir(cwd)
+            else:
+                arg, decoys = _lay_out_modules(form, name, present, scratch)
+                if arg is None:
+                    return _result(case, [], ("n/a", "name taken"), False)
+                root = os.path.join(scratch, "root")
+                if placement == "path0":
+                    sys.path.insert(0, root)
+                elif placement == "pathend":
+                    sys.path.append(root)
+                else:
+                    os.chdir(root)
+                    sys.path.insert(0, "")
+                importlib.invalidate_caches()
+            try:
+                cfg, err = run_main(["-c", arg, APP])
+            except Exception as e:
+                err = f"{type(e).__name__}: {e}"
+                kind = "raised:" + type(e).__name__
+            else:
+                kind = "rejected" if err is not None else "loaded"
+        finally:
+            os.chdir(old_cwd)
+            sys.path[:] = old_path
+            _forget_modules(scratch)
+    shown = arg.replace(scratch, "<scratch>")
+    how = f"-c {shown!r} ({placement}, target {'present' if present else 'missing'})"
+    sibling = None
+    snap: Dict[str, Any] = {}
+    if cfg is not None:
+        snap = snapshot(cfg)
+        for i, where in decoys.items():
+            if snap.get("backlog") == _decoy_settings(i)["backlog"]:
+                sibling = where
+    viol: List[dict] = []
+    if not present:
+        if cfg is not None:
+            viol.append(V("config-arg-missing", f"{form}:loaded",
+                          f"{how}: no error, run() got a Config" + (f" loaded from the sibling {sibling!r}" if sibling else "")
+                          + f" changed={_changed(snap)}"))
+        return _result(case, viol, ("missing", kind), False, {"case": repr(case), "arg": shown, "outcome": kind, "error": str(err)[:200].replace(scratch, "<scratch>")})
+    if cfg is None:
+        viol.append(V("config-arg-load", f"{form}:{kind}", f"{how}: {str(err)[:300].replace(scratch, '<scratch>')}"))
+        return _result(case, viol, ("present", kind), True)
+    if sibling is not None:
+        viol.append(V("config-arg-load", f"{form}:loaded-sibling", f"{how}: loaded {sibling!r} instead; changed={_changed(snap)}"))
+    else:
+        assigned = {k: ([ref.normalise_setting(ref.CONFIG_KEYS[k][0], v)], "config-arg-load", form) for k, v in CFG_TARGET.items()}
+        assigned["application_path"] = ([APP], "cli-flag-effect", "application")
+        viol = compare(snap, assigned, "config-arg-load")
+        for v in viol:
+            v["detail"] = f"{how} :: " + v["detail"]
+    return _result(case, viol, ("present", form, snap_digest(snap)), True, {"case": repr(case), "arg": shown, "decoys": len(decoys), "changed": _changed(snap)})
+
+
+# ---------------------------------------------------------------------------------------------
 # part: bind
 
-SHAPES = ["v4:0", "v4:P", "v4bare", "name:0", "v6:0", "v6:P", "v6bare", "unix", "unix-stale", "fd-stream", "fd-dgram"]
+SHAPES =["v4:0", "v4:P", "v4bare", "name:0", "v6:0", "v6:P", "v6bare", "unix", "unix-stale", "fd-stream", "fd-dgram"]
 _BARE = [0]
 
 
@@ -824,6 +1083,7 @@ def scenarios(tier: str) -> List[Any]:
         fams += [("cli3", a) for a in canon]
     fams += [("bind", ssl_on, which) for ssl_on, which in ((0, "bind"), (1, "bind"), (1, "insecure_bind"), (1, "quic_bind"))]
     fams.append(("root",))
+    fams += [("cfgname", form, pl) for form in CFG_FORMS for pl in CFG_PLACEMENTS[form]]
     fams += [("hdr", y) for y in _year_list(tier)]
     fams += [("hdr-minutes",), ("hdr-switches",)]
     return fams
@@ -861,6 +1121,9 @@ def cases(fam: tuple, tier: str) -> List[tuple]:
                 if not (a.startswith("fd-") and b.startswith("fd-")) and not (a == b and a in ("v4:P", "v6:P"))]
         out += [("bind", ssl_on, which, (s,), 2) for s in SHAPES]
         return out
+    if kind == "cfgname":
+        _, form, pl = fam
+        return [("cfgname", form, pl, n, present) for n in cfg_names(form, pl, tier) for present in (1, 0)]
     if kind == "root":
         return [("root", ld, p) for ld in ROOT_LOADERS for p in ROOT_PATHS]
     if kind == "hdr":
@@ -882,7 +1145,7 @@ def bounds(tier: str, params: Any) -> dict:
 
 
 _DISPATCH = {"load": do_load, "load2": do_load2, "cli": do_cli, "clifile": do_clifile, "cliopts": do_cliopts, "bind": do_bind,
-             "root": do_root, "hdr": do_hdr}
+             "root": do_root, "hdr": do_hdr, "cfgname": do_cfgname}
 
 
 def execute(params: Any, prefix: List[int]) -> ExecResult:
